@@ -83,12 +83,19 @@ pub fn run_history(c: &mut Case, ops: &[TOp], keys: &[String], roundtrip: bool) 
     run_history_from(c, ops, keys, roundtrip, &[])
 }
 
+pub fn run_history_from(c: &mut Case, ops: &[TOp], keys: &[String], roundtrip: bool, parsed_start: &[(String, String)]) {
+    run_history_fmt(c, ops, keys, roundtrip, parsed_start, true, false)
+}
+
 /// `parsed_start`: when non-empty, the history starts from an archive that was built with these
 /// entries, serialized and parsed back (so its dirty flag must be clear).
-pub fn run_history_from(c: &mut Case, ops: &[TOp], keys: &[String], roundtrip: bool, parsed_start: &[(String, String)]) {
+pub fn run_history_fmt(c: &mut Case, ops: &[TOp], keys: &[String], roundtrip: bool, parsed_start: &[(String, String)], unicode: bool, be: bool) {
     // under Miri the start state goes through the Shift-JIS format (UTF-16 decoding is not Miri-clean)
-    let fmt0 = if cfg!(miri) && !parsed_start.is_empty() { TextArchiveFormat::ShiftJIS } else { TextArchiveFormat::Unicode };
-    let mut t = TextArchive::new(fmt0, Endian::Little);
+    let unicode = unicode && !(cfg!(miri) && !parsed_start.is_empty());
+    let fmt0 = if unicode { TextArchiveFormat::Unicode } else { TextArchiveFormat::ShiftJIS };
+    let en = if be { Endian::Big } else { Endian::Little };
+    let mut t = TextArchive::new(fmt0, en);
+    c.sit(if unicode { "format_utf16" } else { "format_shift_jis" });
     let mut m = Model::default();
     if t.is_dirty() {
         c.fail("dirty", "new_dirty", "a new archive reports is_dirty() == true".to_string());
@@ -102,7 +109,7 @@ pub fn run_history_from(c: &mut Case, ops: &[TOp], keys: &[String], roundtrip: b
         }
         let re = c.lib("serialize + from_bytes (start state)", || -> Result<TextArchive, String> {
             let b = t.serialize().map_err(|e| e.to_string())?;
-            TextArchive::from_bytes(&b, fmt0, Endian::Little).map_err(|e| e.to_string())
+            TextArchive::from_bytes(&b, fmt0, en).map_err(|e| e.to_string())
         });
         match re {
             Some(Ok(p)) => t = p,
@@ -193,17 +200,22 @@ pub fn run_history_from(c: &mut Case, ops: &[TOp], keys: &[String], roundtrip: b
         c.sit("delete");
     }
     if roundtrip {
-        let content = c06::Content { unicode: !(cfg!(miri) && !parsed_start.is_empty()), be: false, title: m.title.clone(), entries: m.entries.clone() };
+        // the legacy format can only carry Shift-JIS-domain text (and no title)
+        if !unicode && !m.entries.iter().all(|(k, v)| crate::refs::strings::sjis_ok(k) && crate::refs::strings::sjis_ok(v)) {
+            c.outcome("final_state_not_representable_in_legacy_format");
+            return;
+        }
+        let content = c06::Content { unicode, be, title: if unicode { m.title.clone() } else { String::new() }, entries: m.entries.clone() };
         // the title goes through Shift-JIS in the file; histories only use ASCII titles
         c06::check_roundtrip(c, "final state of history", &t, &content);
     }
 }
 
-pub const REQUIRED: &[&str] = &["delete_then_readd", "delete", "exhaustive_histories", "random_histories", "history_from_parsed_archive"];
+pub const REQUIRED: &[&str] = &["delete_then_readd", "delete", "exhaustive_histories", "random_histories", "history_from_parsed_archive", "format_utf16", "format_shift_jis", "more_than_64_keys"];
 
 pub fn run(cx: &mut Ctx) {
     cx.require(REQUIRED);
-    cx.rule = "bounded-exhaustive: keys {a,b,c} x values {\"x\", backslash-n, LF, backslash+LF} with the 18 operations set(k,v) / delete(k) / set(k,get(k)): every history of length <= 4 (quick) / <= 5 (thorough), model compared after every step; random histories of 20..300 operations over 1..12 keys with messages over the alphabet {backslash, n, LF, CR, a, hiragana a}; every final state is serialized and re-read (C06 monitor). non-trivial = history containing a delete followed by a later set of a then-absent key; distinct by history hash".into();
+    cx.rule = "bounded-exhaustive: keys {a,b,c} x values {\"x\", backslash-n, LF, backslash+LF} with the 18 operations set(k,v) / delete(k) / set(k,get(k)): every history of length <= 4 (quick) / <= 5 (thorough), model compared after every step; random histories of 20..300 operations over 1..12 keys (1 in 25: 300..700 operations over 66..260 keys) in either file format and endianness, with messages over the alphabet {backslash, n, LF, CR, a, hiragana a, yen sign, half-width katakana a}; every final state is serialized and re-read (C06 monitor). non-trivial = history containing a delete followed by a later set of a then-absent key; distinct by history hash".into();
     let keys: Vec<String> = ["a", "b", "c"].iter().map(|s| s.to_string()).collect();
     let vals: Vec<String> = ["x", "\\n", "\n", "\\\n"].iter().map(|s| s.to_string()).collect();
     let mut ops: Vec<TOp> = Vec::new();
@@ -303,10 +315,16 @@ pub fn run(cx: &mut Ctx) {
         cx.case("random_histories", |c| {
             c.sit("random_histories");
             let mut rng: Rng = c.rng.clone();
-            let nk = rng.range(1, if cfg!(miri) { 3 } else { 12 });
+            let many = !cfg!(miri) && rng.chance(1, 25);
+            let nk = if many { rng.range(66, 260) } else { rng.range(1, if cfg!(miri) { 3 } else { 12 }) };
+            if many {
+                c.sit("more_than_64_keys");
+            }
             let keys: Vec<String> = (0..nk).map(|i| format!("key{}", i)).collect();
-            let alphabet = ['\\', 'n', '\n', '\r', 'a', 'あ'];
-            let len = if cfg!(miri) { rng.range(5, 20) } else { rng.range(20, 300) };
+            let alphabet = ['\\', 'n', '\n', '\r', 'a', 'あ', '\u{a5}', 'ｱ'];
+            let len = if cfg!(miri) { rng.range(5, 20) } else if many { rng.range(300, 700) } else { rng.range(20, 300) };
+            let unicode = cfg!(miri) || rng.chance(2, 3);
+            let be = rng.bool();
             let mut h = Vec::new();
             for _ in 0..len {
                 let k = rng.pick(&keys).clone();
@@ -330,9 +348,11 @@ pub fn run(cx: &mut Ctx) {
             c.eval(len as u64);
             if rng.bool() {
                 let start: Vec<(String, String)> = keys.iter().take(rng.range(1, nk)).map(|k| (k.clone(), (0..rng.range(0, 5)).map(|_| *rng.pick(&alphabet)).collect())).collect();
-                run_history_from(c, &h, &keys, true, &start);
+                // start values must survive the file format of the start state
+                let start: Vec<(String, String)> = start.into_iter().map(|(k, v)| (k, if unicode { v } else { v.replace('\u{a5}', "y") })).collect();
+                run_history_fmt(c, &h, &keys, true, &start, unicode, be);
             } else {
-                run_history(c, &h, &keys, true);
+                run_history_fmt(c, &h, &keys, true, &[], unicode, be);
             }
             c.sample("random_history", || {
                 J::obj(vec![
